@@ -41,6 +41,8 @@ SMBHeaderSize == 32                                   \* MS-CIFS 2.2.3.1
 (*   "count43" value = content bytes of field arg / 43 (SMB_Directory_Information records) *)
 (*   "off"     value = offset of field arg from the start of the SMB header*)
 (*   "zero"    describes a buffer the structure does not declare: 0        *)
+(*             (the *Displacement fields of the secondary transaction     *)
+(*             messages describe no buffer of THIS message: free values)  *)
 (*   "or16"    free, with LARGE_FILES (0x10) set: the declared ranges are LOCKING_ANDX_RANGE64 *)
 (*   "blockwc" not a slot at all: mirrors SMB_Parameters.WordCount         *)
 (*   "opt"     free, and OPTIONAL: MS-CIFS allows two WordCounts for the command; the trailing field may be *)
@@ -172,16 +174,12 @@ FieldTable ==
       <<"WriteRequest", "Data", "str", "1">> }
     \cup Std("IoctlRequest", "Parameters", "Data")
     \cup Std("IoctlResponse", "Parameters", "Data")
-    \cup { <<"IoctlResponse", "ParameterDisplacement", "zero", "">>, <<"IoctlResponse", "DataDisplacement", "zero", "">> }
     \cup Std("NtTransactRequest", "NT_Trans_Parameters", "NT_Trans_Data")
     \cup Std("NtTransactSecondaryRequest", "NT_Trans_Parameters", "NT_Trans_Data")
-    \cup { <<"NtTransactSecondaryRequest", "ParameterDisplacement", "zero", "">>, <<"NtTransactSecondaryRequest", "DataDisplacement", "zero", "">> }
     \cup Std("Transaction2Request", "Trans2_Parameters", "Trans2_Data")
     \cup Std("Transaction2SecondaryRequest", "Trans2_Parameters", "Trans2_Data")
-    \cup { <<"Transaction2SecondaryRequest", "ParameterDisplacement", "zero", "">>, <<"Transaction2SecondaryRequest", "DataDisplacement", "zero", "">> }
     \cup Std("TransactionRequest", "Trans_Parameters", "Trans_Data")
     \cup Std("TransactionSecondaryRequest", "Trans2_Parameters", "Trans2_Data")
-    \cup { <<"TransactionSecondaryRequest", "ParameterDisplacement", "zero", "">>, <<"TransactionSecondaryRequest", "DataDisplacement", "zero", "">> }
 
 (* fields whose MS-CIFS reading is not certain enough to raise an alarm on: mismatches are reported as drift *)
 Unsure == { <<"NtCreateAndxRequest", "FileName">>, <<"NtCreateAndxRequest", "NameLength">>,
